@@ -447,7 +447,13 @@ def run(chk, p, t):
         "the IOD result (boundary-value numerics) - the larger part of the property."
     )
     chk.assumptions += ["sez2eci / razel2sez are the inverses of eci2sez / sez2razel (C04)"]
-    for fn in (rule_r1, rule_r2, rule_r3, rule_r4):
+    def rule_r5(chk, p, t):
+        # the measurement model that the radar inversion inverts: forward spherical model and its recoveries (C04.R10)
+        from rules import C04
+
+        C04.rule_r10(chk, p, t, rid="C20.R5", parts=("forward", "measurement"))
+
+    for fn in (rule_r1, rule_r2, rule_r3, rule_r4, rule_r5):
         rid = "C20.R" + fn.__name__[-1]
         if not chk.wants(rid):
             continue
